@@ -173,6 +173,60 @@ fn ctx_view(ctx: &ServiceInstallCtx, base: &Path) -> Value {
     })
 }
 
+/// "The internet" as the node sees it: a local HTTP proxy (antnode is run with HTTP(S)_PROXY pointing here) that
+/// records the request line of everything the node tries to fetch and answers plain-http GETs with a list of
+/// peers (`big` hosts get 120 of them, enough for the fetcher to stop early; the others 5).  CONNECT (https) is
+/// recorded and refused.  Nothing ever leaves the machine.
+struct Recorder {
+    port: u16,
+    seen: Arc<Mutex<Vec<String>>>,
+}
+
+fn start_recorder() -> Recorder {
+    use std::io::{Read, Write as _};
+    let listener = std::net::TcpListener::bind("127.0.0.1:0").unwrap();
+    let port = listener.local_addr().unwrap().port();
+    let seen: Arc<Mutex<Vec<String>>> = Arc::new(Mutex::new(vec![]));
+    let peers: Vec<String> = (0..120)
+        .map(|i| format!("/ip4/203.0.113.{}/udp/{}/quic-v1/p2p/{}", i % 250 + 1, 4000 + i, libp2p_identity::PeerId::random()))
+        .collect();
+    let seen2 = seen.clone();
+    std::thread::spawn(move || {
+        for conn in listener.incoming() {
+            let Ok(mut conn) = conn else { continue };
+            let seen = seen2.clone();
+            let peers = peers.clone();
+            std::thread::spawn(move || {
+                let _ = conn.set_read_timeout(Some(Duration::from_secs(5)));
+                let mut buf = Vec::new();
+                let mut chunk = [0u8; 1024];
+                while !buf.windows(4).any(|w| w == b"\r\n\r\n") {
+                    match conn.read(&mut chunk) {
+                        Ok(0) | Err(_) => break,
+                        Ok(n) => buf.extend_from_slice(&chunk[..n]),
+                    }
+                }
+                let head = String::from_utf8_lossy(&buf).to_string();
+                let line = head.lines().next().unwrap_or("").to_string();
+                if line.is_empty() {
+                    return;
+                }
+                seen.lock().unwrap().push(line.clone());
+                let resp = if line.starts_with("CONNECT") {
+                    "HTTP/1.1 502 Bad Gateway\r\nContent-Length: 0\r\nConnection: close\r\n\r\n".to_string()
+                } else {
+                    let n = if line.contains("bootstrap_cache.json") || line.contains("network-contacts") { 120 } else { 5 };
+                    let body = peers[..n].join("\n");
+                    format!("HTTP/1.1 200 OK\r\nContent-Type: text/plain\r\nContent-Length: {}\r\nConnection: close\r\n\r\n{}", body.len(), body)
+                };
+                let _ = conn.write_all(resp.as_bytes());
+                let _ = conn.flush();
+            });
+        }
+    });
+    Recorder { port, seen }
+}
+
 fn list_files(dir: &Path, base: &Path, out: &mut Vec<String>) {
     if let Ok(rd) = std::fs::read_dir(dir) {
         for e in rd.flatten() {
@@ -190,7 +244,7 @@ fn list_files(dir: &Path, base: &Path, out: &mut Vec<String>) {
 /// options, performs its real start-up up to the first bootstrap-cache flush (root dir + key, logging,
 /// cache store) with HOME pointing into the scratch directory, and exits.  Reports exit status, the dump
 /// and every file that exists under the scratch directory afterwards.
-fn run_antnode(bin: &str, ctx: &ServiceInstallCtx, base: &Path) -> Value {
+fn run_antnode(bin: &str, ctx: &ServiceInstallCtx, base: &Path, rec: &Recorder) -> Value {
     // remove what a previous run on this scratch directory left behind
     let _ = std::fs::remove_dir_all(base.join("home"));
     let _ = std::fs::remove_dir_all(base.join("logs"));
@@ -203,9 +257,19 @@ fn run_antnode(bin: &str, ctx: &ServiceInstallCtx, base: &Path) -> Value {
             }
         }
     }
+    rec.seen.lock().unwrap().clear();
+    let proxy = format!("http://127.0.0.1:{}", rec.port);
     let out = std::process::Command::new(bin)
         .args(&ctx.args)
-        .env("VERIF_DUMP_OPT", "effects")
+        // `contacts`: parsed options, start-up effects, then the initial peers gathered from the peers arguments
+        .env("VERIF_DUMP_OPT", "contacts")
+        .env("HTTP_PROXY", &proxy)
+        .env("http_proxy", &proxy)
+        .env("HTTPS_PROXY", &proxy)
+        .env("https_proxy", &proxy)
+        .env("ALL_PROXY", &proxy)
+        .env_remove("NO_PROXY")
+        .env_remove("no_proxy")
         .env("HOME", base.join("home"))
         .env_remove("XDG_DATA_HOME")
         .env_remove("ANT_PEERS")
@@ -225,12 +289,13 @@ fn run_antnode(bin: &str, ctx: &ServiceInstallCtx, base: &Path) -> Value {
             "dump": scrub(&String::from_utf8_lossy(&o.stdout), base),
             "stderr": scrub(&String::from_utf8_lossy(&o.stderr).chars().take(1500).collect::<String>(), base),
             "files": files,
+            "requests": rec.seen.lock().unwrap().clone(),
         }),
         Err(e) => json!({ "code": -1, "dump": "", "stderr": format!("spawn failed: {e}"), "files": files }),
     }
 }
 
-async fn run_case(case: &Value, base: &Path, antnode: Option<&str>) -> Value {
+async fn run_case(case: &Value, base: &Path, antnode: Option<&str>, rec: &Recorder) -> Value {
     std::fs::create_dir_all(base).unwrap();
     let data = base.join("data");
     let logs = base.join("logs");
@@ -380,7 +445,7 @@ async fn run_case(case: &Value, base: &Path, antnode: Option<&str>) -> Value {
         "upgrade_result": upgrade_result,
     });
     if let Some(bin) = antnode {
-        res["antnode"] = json!({ "install": run_antnode(bin, &install_ctx, base), "upgrade": run_antnode(bin, &upgrade_ctx, base) });
+        res["antnode"] = json!({ "install": run_antnode(bin, &install_ctx, base, rec), "upgrade": run_antnode(bin, &upgrade_ctx, base, rec) });
     }
     res
 }
@@ -392,6 +457,7 @@ fn main() {
     let nanos = std::time::SystemTime::now().duration_since(std::time::UNIX_EPOCH).map(|d| d.as_nanos()).unwrap_or(0);
     let root = std::env::temp_dir().join(format!("verif-c20-{}-{nanos}", std::process::id()));
     let antnode = std::env::var("ANTNODE_BIN").ok().filter(|s| !s.is_empty());
+    let rec = start_recorder();
     let stdin = std::io::stdin();
     let out = std::io::stdout();
     let mut n = 0u64;
@@ -403,7 +469,7 @@ fn main() {
         let case: Value = serde_json::from_str(&line).unwrap();
         n += 1;
         let base = root.join(format!("c{n}"));
-        let res = catch_unwind(AssertUnwindSafe(|| rt.block_on(run_case(&case, &base, antnode.as_deref())))).unwrap_or_else(|p| {
+        let res = catch_unwind(AssertUnwindSafe(|| rt.block_on(run_case(&case, &base, antnode.as_deref(), &rec)))).unwrap_or_else(|p| {
             let msg = p
                 .downcast_ref::<String>()
                 .cloned()
